@@ -248,7 +248,7 @@ PoolEngine.props = {
     "C05": _pool_prop("c05", _POOL_REL_ALL, "any", "non-trivial = at least two operations after construction"),
     "C06": _pool_prop("c06", {"ret", "unblocked", "lock", "ended", "badop", "construct", "rr", "states", "refs"}, "any",
                       "non-trivial = at least two operations after construction"),
-    "C07": _pool_prop("c07", {"newsc", "refresh", "refs", "states", "ret", "aff", "fb", "streams", "slotaff", "ended", "badop", "construct"}, "refresh",
+    "C07": _pool_prop("c07", {"cfg", "newsc", "refresh", "refs", "states", "ret", "aff", "fb", "streams", "slotaff", "ended", "badop", "construct"}, "refresh",
                       "non-trivial = a refresh ran to completion (old connection removed)"),
     "C08": _pool_prop("c08", {"ret", "fb", "aff", "states", "refs", "picker", "publish", "ended", "badop", "construct"}, "keyed",
                       "non-trivial = a BOUND/UNBIND call was placed after a successful BIND completion (fallback enabled by the generator)"),
